@@ -49,6 +49,8 @@ def _len(eng, node, x):
     if isinstance(x, Rec) and "nodes" in x.fields and isinstance(x.fields["nodes"], SDict):
         # number of nodes of a graph: the length of its (ghost) key sequence
         return eng.dict_keys(x.fields["nodes"]).n
+    if type(x).__name__ == "SODict":
+        return eng.dict_keys(x).n         # insertion-ordered dict: the length of its key list (representation invariant checked)
     raise Unsupported(f"len of {type(x).__name__}")
 
 
@@ -831,19 +833,6 @@ def _min2(eng, node, *a, **kw):
     return _old_min(eng, node, *a, **kw)
 
 
-@reg("networkx.set_node_attributes")
-def _nx_set_node_attributes(eng, node, graph, values, name=None):
-    """assumed contract for a uniform value: afterwards every node of the graph carries attribute `name` == value.
-    Graph objects are records with one field `attr_<name>` standing for 'the value all nodes carry' (None: not uniformly set)."""
-    from .engine import is_path
-    if not isinstance(graph, Rec) or not isinstance(name, str) or f"attr_{name}" not in graph.fields:
-        raise Unsupported("set_node_attributes form")
-    if not is_path(node.args[0]):
-        raise Unsupported("set_node_attributes on a temporary")
-    eng.write_path(eng.lvalue(node.args[0]) + [("attr", f"attr_{name}")], values)
-    return None
-
-
 @reg("numpy.random.randint")
 def _np_randint(eng, node, low, high=None, size=None):
     if size is not None:
@@ -955,6 +944,12 @@ def _nx_graph(eng, node, *a, **kw):
 def _nx_set_node_attributes(eng, node, graph, values, name=None):
     """nx.set_node_attributes(G, values, name): a dict sets the attribute on the nodes of G it has as keys, anything else on all nodes"""
     from .engine import is_path
+    if isinstance(graph, Rec) and isinstance(name, str) and f"attr_{name}" in graph.fields and "nodes" not in graph.fields:
+        # coarse graph objects: a record with one field `attr_<name>` standing for 'the value all nodes carry'
+        if not is_path(node.args[0]):
+            raise Unsupported("set_node_attributes on a temporary")
+        eng.write_path(eng.lvalue(node.args[0]) + [("attr", f"attr_{name}")], values)
+        return None
     if not (isinstance(graph, Rec) and "nodes" in graph.fields and isinstance(name, str)):
         raise Unsupported("set_node_attributes on something that is not a modelled graph")
     nd = graph.fields["nodes"]
